@@ -400,7 +400,23 @@ pub fn glob_match(pat: &str, text: &str) -> bool {
 
 /// a known signature may contain `*` where the listed finding's context varies (the entry says how)
 pub fn is_known<'a>(known: &'a [Known], prop: &str, sig: &str) -> Option<&'a Known> {
-    known.iter().find(|k| k.prop == prop && glob_match(&k.sig, sig))
+    if let Some(k) = known.iter().find(|k| k.prop == prop && glob_match(&k.sig, sig)) {
+        return Some(k);
+    }
+    // C16 `state|[after-timeout:]A+B`: an entry `state|any:<Kind>` lists a kind of call that is not atomic at all;
+    // every final-state mismatch it takes part in is that finding
+    if prop == "C16" {
+        if let Some(rest) = sig.strip_prefix("state|") {
+            let kinds = rest.strip_prefix("after-timeout:").unwrap_or(rest);
+            for kind in kinds.split('+') {
+                let want = format!("state|any:{kind}");
+                if let Some(k) = known.iter().find(|k| k.prop == "C16" && k.sig == want) {
+                    return Some(k);
+                }
+            }
+        }
+    }
+    None
 }
 
 // ---------------- replay files and minimisation ----------------
